@@ -26,7 +26,7 @@ From Coq Require Import List NArith Bool String.
 From JV.lib Require Import Bytes.
 From JV.gen Require Import DirectiveTables TagName.
 From JV.model Require Import ScannerSem Core TagTitle Catalog.
-From JV.proofs Require Import CatalogProofs FaithfulProofs ContentProofs InfoProofs FaithfulExamples LocalityExamples.
+From JV.proofs Require Import CatalogProofs FaithfulProofs ContentProofs BodyProofs InfoProofs FaithfulExamples LocalityExamples.
 Import ListNotations.
 Open Scope N_scope.
 
@@ -146,3 +146,31 @@ Theorem faithful_example :
     c_jsight c = bs "0.3" /\ japi_title c = bs "T" /\ info_version c = bs "1".
 Proof. exact FaithfulExamples.faithful_example. Qed.
 Print Assumptions faithful_example.
+
+(* ======================================================================================= *)
+(* (c) at FULL strength: bodies, headers and schema descriptors (proofs/BodyProofs.v).
+   fview x = (description, query with its schema descriptor, request (body, headers), responses in order as
+   (code, annotation, body, headers), params, result); a body is (format, schema descriptor), a schema
+   descriptor says where the schema text comes from (the body of a directive / a type reference / none).
+   events2 bt t anc j = the content events the directive at (t, anc) is for interaction j:
+     Description under a method -> FDesc text;  Query -> FQuery {format; example; schema_of d};
+     Request -> FReq, then FReqBody (request_body_of d) when the directive itself carries the body;
+     Body under Request -> FReqBody (request_body_of d);  Headers under Request -> FReqHeaders (schema_of d);
+     a response code -> FResp code annotation, then FRespBody (response_body_of d) when it carries the body;
+     Body under a response code -> FRespBody (response_body_of d): it fills the LAST response;
+     Headers under a response code -> FRespHeaders (schema_of d) (the last response);
+     Params / Result -> FParams / FResult (schema_of d)
+   where request_body_of / response_body_of are the (format, descriptor) the directive's notation, Type
+   parameter and body determine.  As in content_faithful: exactly one directive makes the interaction; its
+   content is the fold of the events of the positions after it, in source order, from the empty content.
+   NOT covered: the descriptions of INFO and TAG (info_faithful covers title / version / presence). *)
+Theorem full_content_faithful : forall pp bt banned post c,
+  build pp bt banned post = COk c ->
+  forall j x, In (j, x) (c_inters c) ->
+    exists l1 t anc l2,
+      positions_all post = l1 ++ (t, anc) :: l2 /\ inter_delta t anc = [j] /\ made_by t anc j /\
+      ~ In j (method_ids l1) /\ ~ In j (method_ids l2) /\
+      iannot x = d_annot (tree_dir t) /\
+      fview x = fold_left apply2 (events2_of bt j l2) fv_empty.
+Proof. exact full_content_faithful_lemma. Qed.
+Print Assumptions full_content_faithful.
